@@ -9,7 +9,7 @@ CLAIMED = {
  "C02": ("typestate dataflow over SSA with inlining (item in hand: received -> forwarded exactly once), value-flow and who-may-access rules",
          "Safety half of exactly-once/tagged/FIFO: single mover proven by context analysis, exactly one successful output send per received item on every CFG path, tag identity by SSA value equality, no buffering of items, handlers call Handle then release once each. Liveness (eventual delivery) is not decided.",
          "DESIGN.md section 5 C02"),
- "C03": ("buffer typestate over the inlined goroutine, item-flow automaton, dominating size guards on normalised comparisons",
+ "C03": ("typestate automata over the events of the inlined goroutine (receive/ingest/emit/reset/release), item-flow automaton, size facts from normalised comparison edges with infeasible-edge pruning",
          "The invariant concat(outputs)++buffer == accepted inputs is preserved by every operation the scheduler can perform, in any order; non-empty and size clauses from guards. Timing is irrelevant by construction.",
          "DESIGN.md section 5 C03"),
  "C04": ("loop-shape recognition (counted batch loop), typestate batch/delay alternation, symbolic form of the sleep amount",
@@ -24,13 +24,13 @@ CLAIMED = {
  "C07": ("dominating-guard and path rules on SSA CFG: returns of the scheduling loop, drained marking, for-all helpers, deferred wait loop, signal placement, error origin",
          "Termination safety: signals can only follow 'all inputs observed drained and nothing in flight' on every path; err carries only divider-check errors. 'Promptly' and eventual termination are not decided.",
          "DESIGN.md section 5 C07"),
- "C08": ("payload provenance (clone/alias) with mode-edge pruning, typestate send->release, dominance with intervening-writer scan, escape analysis of the buffer",
+ "C08": ("payload provenance (clone/alias) with mode-edge pruning, typestate send->release over events, `!unreleased` fact typestate, escape analysis of the buffer",
          "A delivered slice is a fresh clone in copy mode; in no-copy mode nothing can write the buffer between delivery and release (or ever again after a v1 stop).",
          "DESIGN.md section 5 C08"),
- "C09": ("classification of every flush call site by its dominating guards; predicate form; typestate emit->passAt reset",
+ "C09": ("typestate over events with size/tick/timeout facts: every send of the buffer classified by the facts valid at it; form of every timeout test; emit->passAt reset",
          "Structure: flushes happen only when full / timed out / at end of input (unite: oversize, would not fit); the real-time clause is not decided.",
          "DESIGN.md section 5 C09"),
- "C10": ("who-may-write rule for passAt, must-flush path rule in the ticker clause, symbolic form of the ticker period",
+ "C10": ("typestate over events: passAt writes justified by a send / tick / end, tick->test->flush path rule, every input receive watches the ticker, symbolic form of the ticker period",
          "Necessary structure only for the latency bound: no per-element timer reset, expired => flush, ticker period formula and its error exits; the bound itself is a real-time statement.",
          "DESIGN.md section 5 C10"),
  "C11": ("whole-slice ingest/forward automaton, payload provenance, fit-facts typestate",
